@@ -4,7 +4,7 @@ import LunarVerif.Spec.UrlMatch
 namespace LunarVerif.UrlTree
 open LunarVerif.UrlMatch
 
-variable {V : Type}
+variable {V V' : Type}
 
 /-! ### `firstSome?` / `lastSome?` -/
 
@@ -518,5 +518,1182 @@ theorem validateParts_none {ps : List Part} (h : validateParts ps = none) : urlN
     simp at hl
     subst hl
     simp at hp
+
+/-! ### hypotheses on a residual list relative to a URL, and their preservation along a step -/
+
+/-- No entry follows the URL across the host/path boundary. -/
+def Aligned (res : Res V) (us : Url) : Prop := ∀ e ∈ res, flagsOK e.1 us = true
+
+/-- No `*` entry is reached with zero segments or walked past (see `UrlMatch.displaced`). -/
+def Clean (res : Res V) (us : Url) : Prop :=
+  ∀ w ∈ res, ∀ n, wildPos w.1 us = some n → us.length ≠ n ∧ ∀ e ∈ res, followsPast n e.1 us = false
+
+/-- Two patterns give the same name to a parameter they share the trie node of. -/
+def namesAgree : Pattern → Pattern → Bool
+  | p :: ps, q :: qs => if p.seg.key = q.seg.key then decide (p.seg = q.seg) && namesAgree ps qs else true
+  | _, _ => true
+
+def NamesOK (res : Res V) : Prop := ∀ e1 ∈ res, ∀ e2 ∈ res, namesAgree e1.1 e2.1 = true
+
+/-- The trie lets pattern part `p` follow URL part `u` (literal equal / any parameter). -/
+def trieStep (p u : Part) : Prop := (∃ s, p.seg = .lit s ∧ u.seg = .lit s) ∨ (p.seg.isPar = true)
+
+theorem trieStep_accepts {p u : Part} (h : trieStep p u) (hu : u.seg ≠ .lit "") :
+    segAccepts p.seg u.seg = true := by
+  rcases h with ⟨s, h1, h2⟩ | h
+  · simp [h1, h2, segAccepts]
+  · cases hs : p.seg with
+    | par n => simp [segAccepts, hu]
+    | lit s => simp [hs, Seg.isPar] at h
+    | wild => simp [hs, Seg.isPar] at h
+
+theorem trieStep_not_wild {p u : Part} (h : trieStep p u) : p.seg ≠ .wild := by
+  rcases h with ⟨s, h1, _⟩ | h
+  · simp [h1]
+  · intro hw; simp [hw, Seg.isPar] at h
+
+theorem Aligned.step {res : Res V} {u : Part} {us : Url} {k : Key} (h : Aligned res (u :: us))
+    (hk : ∀ p, p.seg.key = k → trieStep p u) : Aligned (step k res) us := by
+  intro ⟨rest, v⟩ hmem
+  obtain ⟨p, hp, hpk⟩ := mem_step.mp hmem
+  have := h _ hp
+  rcases hk p hpk with ⟨s, h1, h2⟩ | hpar
+  · simp [flagsOK, h1, h2] at this; exact this.2
+  · cases hs : p.seg with
+    | par n => simp [flagsOK, hs] at this; exact this.2
+    | lit s => simp [hs, Seg.isPar] at hpar
+    | wild => simp [hs, Seg.isPar] at hpar
+
+theorem Aligned.head {res : Res V} {u : Part} {us : Url} (h : Aligned res (u :: us))
+    {p : Part} {rest : List Part} {v : Option V} (hmem : (p :: rest, v) ∈ res)
+    (hs : trieStep p u ∨ p.seg = .wild) : p.host = u.host := by
+  have := h _ hmem
+  rcases hs with (⟨s, h1, h2⟩ | hpar) | hw
+  · simp [flagsOK, h1, h2] at this; exact this.1.symm
+  · cases hs : p.seg with
+    | par n => simp [flagsOK, hs] at this; exact this.1.symm
+    | lit s => simp [hs, Seg.isPar] at hpar
+    | wild => simp [hs, Seg.isPar] at hpar
+  · simp [flagsOK, hw] at this; exact this.symm
+
+theorem Clean.step {res : Res V} {u : Part} {us : Url} {k : Key} (h : Clean res (u :: us))
+    (hu : u.seg ≠ .lit "") (hk : ∀ p, p.seg.key = k → trieStep p u) : Clean (step k res) us := by
+  intro ⟨wrest, wv⟩ hw n hn
+  obtain ⟨p, hp, hpk⟩ := mem_step.mp hw
+  have hacc := trieStep_accepts (hk p hpk) hu
+  have hnw := trieStep_not_wild (hk p hpk)
+  have hpos : wildPos (p :: wrest) (u :: us) = some (n + 1) := by
+    cases hs : p.seg with
+    | wild => exact absurd hs hnw
+    | lit s => rw [hs] at hacc; simp [wildPos, hs, hacc, hn]
+    | par m => rw [hs] at hacc; simp [wildPos, hs, hacc, hn]
+  obtain ⟨h1, h2⟩ := h _ hp (n + 1) hpos
+  refine ⟨by simpa using h1, ?_⟩
+  intro ⟨erest, ev⟩ he
+  obtain ⟨p', hp', hpk'⟩ := mem_step.mp he
+  have := h2 _ hp'
+  have hacc' := trieStep_accepts (hk p' hpk') hu
+  simpa [followsPast, hacc'] using this
+
+theorem NamesOK.step {res : Res V} (h : NamesOK res) (k : Key) : NamesOK (step k res) := by
+  intro ⟨r1, v1⟩ h1 ⟨r2, v2⟩ h2
+  obtain ⟨p1, hp1, hk1⟩ := mem_step.mp h1
+  obtain ⟨p2, hp2, hk2⟩ := mem_step.mp h2
+  have := h _ hp1 _ hp2
+  simp [namesAgree, hk1, hk2] at this
+  exact this.2
+
+/-- Under `Clean`, a node that has a wildcard child is never walked through. -/
+theorem Clean.no_follow {res : Res V} {u : Part} {us : Url} (h : Clean res (u :: us))
+    (hwl : WildLast res) {wv : Option V} (hw : wildChild? res = some wv)
+    {p : Part} {rest : List Part} {v : Option V} (hmem : (p :: rest, v) ∈ res)
+    (hs : trieStep p u) (hu : u.seg ≠ .lit "") : False := by
+  obtain ⟨w, wrest, hwm, hws⟩ := wildChild?_some hw
+  have := wildLast_wild_head (hwl _ hwm) hws
+  subst this
+  obtain ⟨_, h2⟩ := h _ hwm 0 (by simp [wildPos, hws])
+  have := h2 _ hmem
+  simp [followsPast, trieStep_accepts hs hu, trieStep_not_wild hs] at this
+
+/-- Parameter bindings the walk along pattern `q` adds (Go map assignments, in order). -/
+def bindParams : List (String × String) → Pattern → Url → List (String × String)
+  | ps, p :: q, u :: us =>
+    match p.seg with
+    | .par n => bindParams (if u.seg.isPar then ps else setParam n u.seg.text ps) q us
+    | _ => bindParams ps q us
+  | ps, _, _ => ps
+
+theorem stuck_match {fw : Option (Option V)} {params path u}
+    (h : (stuck fw params path u).isMatch = true) :
+    ∃ wv, fw = some wv ∧ stuck fw params path u = ⟨true, wv, params, path ++ [⟨u.host, .wild⟩]⟩ := by
+  unfold stuck at h ⊢
+  split at h
+  · simp [LookupResult.none] at h
+  · rename_i hp
+    cases fw with
+    | none => simp [LookupResult.none] at h
+    | some wv => exact ⟨wv, rfl, by simp [hp]⟩
+
+/-- Exact description of a successful lookup outside the displaced class: the selected entry, the
+    normalised URL (= the path walked so far followed by the selected pattern) and the parameters. -/
+theorem lookGo_exact (us : List Part) :
+    ∀ (res : Res V) (params : List (String × String)) (path : List Part),
+    WildLast res → NamesOK res → urlNonEmpty us = true → Aligned res us → Clean res us →
+    (lookGo res none params path us).isMatch = true →
+    ∃ q, (q, (lookGo res none params path us).value) ∈ res ∧ matchesLax q us = true ∧
+      (lookGo res none params path us).norm = path ++ q ∧
+      (lookGo res none params path us).params = bindParams params q us := by
+  induction us with
+  | nil =>
+    intro res params path hwl _ _ _ hcl h
+    unfold lookGo at h ⊢
+    split
+    · rename_i v hv
+      exact ⟨[], nodeValue_some hv, by simp [matchesLax, matchesG], by simp, by simp [bindParams]⟩
+    · rename_i hnv
+      rw [hnv] at h
+      simp only at h
+      split
+      · rename_i wv hw
+        obtain ⟨w, wrest, hwm, hws⟩ := wildChild?_some hw
+        have := wildLast_wild_head (hwl _ hwm) hws
+        subst this
+        have := (hcl _ hwm 0 (by simp [wildPos, hws])).1
+        simp at this
+      · rename_i hw
+        rw [hw] at h
+        simp [LookupResult.none] at h
+  | cons u us ih =>
+    intro res params path hwl hnm hne hal hcl h
+    obtain ⟨hu, hne'⟩ := urlNonEmpty_cons hne
+    unfold lookGo at h ⊢
+    simp only at h ⊢
+    split
+    · -- constant child
+      rename_i s hvc
+      rw [hvc] at h
+      simp only at h
+      have hus : u.seg = .lit s ∧ constFlag? res s = some u.host := by
+        cases hs : u.seg with
+        | lit s' =>
+          rw [hs] at hvc; simp at hvc
+          obtain ⟨h1, h2⟩ := hvc
+          subst h2; exact ⟨rfl, h1⟩
+        | par n => rw [hs] at hvc; simp at hvc
+        | wild => rw [hs] at hvc; simp at hvc
+      have hk : ∀ p : Part, p.seg.key = Key.lit s → trieStep p u := by
+        intro p hp
+        cases hps : p.seg with
+        | lit s' => rw [hps] at hp; simp [Seg.key] at hp; subst hp; exact .inl ⟨s', hps, hus.1⟩
+        | par n => rw [hps] at hp; simp [Seg.key] at hp
+        | wild => rw [hps] at hp; simp [Seg.key] at hp
+      have hnw : wildChild? res = none := by
+        cases hw : wildChild? res with
+        | none => rfl
+        | some wv =>
+          obtain ⟨p, rest, v, hmem, hp, _⟩ := constFlag?_some hus.2
+          exact (hcl.no_follow hwl hw hmem (.inl ⟨s, hp, hus.1⟩) hu).elim
+      simp only [hnw] at h ⊢
+      obtain ⟨q, hq, hm, hnorm, hpar⟩ := ih _ params (path ++ [u]) (hwl.step _) (hnm.step _) hne'
+        (hal.step hk) (hcl.step hu hk) h
+      obtain ⟨p, hp, hpk⟩ := mem_step.mp hq
+      have hps : p.seg = .lit s := by
+        rcases hk p hpk with ⟨s', h1, h2⟩ | hpar'
+        · rw [h1]; rw [hus.1] at h2; simp at h2; rw [h2]
+        · cases hps : p.seg with
+          | lit s' => rw [hps] at hpk; simp [Seg.key] at hpk; rw [hpk]
+          | par n => rw [hps] at hpk; simp [Seg.key] at hpk
+          | wild => rw [hps] at hpk; simp [Seg.key] at hpk
+      have hpu : p = u := by
+        have hh := hal.head hp (.inl (hk p hpk))
+        cases p; cases u; simp_all
+      refine ⟨p :: q, hp, ?_, ?_, ?_⟩
+      · simp [matchesLax, matchesG, hps, segAccepts, hus.1]; exact hm
+      · rw [hnorm, hpu]; simp
+      · rw [hpar]; simp [bindParams, hps]
+    · rename_i hvc
+      rw [hvc] at h
+      simp only at h
+      split
+      · rename_i n hh hpc
+        rw [hpc] at h
+        simp only at h
+        split
+        · -- parametric child
+          rename_i hhost
+          rw [if_pos hhost] at h
+          have hk : ∀ p : Part, p.seg.key = Key.par → trieStep p u := by
+            intro p hp
+            cases hps : p.seg with
+            | par n => exact .inr (by simp [hps, Seg.isPar])
+            | lit s' => rw [hps] at hp; simp [Seg.key] at hp
+            | wild => rw [hps] at hp; simp [Seg.key] at hp
+          obtain ⟨p0, rest0, v0, hmem0, hp0, _⟩ := parChild?_some hpc
+          have hnw : wildChild? res = none := by
+            cases hw : wildChild? res with
+            | none => rfl
+            | some wv => exact (hcl.no_follow hwl hw hmem0 (.inr (by simp [hp0, Seg.isPar])) hu).elim
+          simp only [hnw] at h ⊢
+          obtain ⟨q, hq, hm, hnorm, hpar⟩ := ih _ _ (path ++ [⟨u.host, .par n⟩]) (hwl.step _) (hnm.step _) hne'
+            (hal.step hk) (hcl.step hu hk) h
+          obtain ⟨p, hp, hpk⟩ := mem_step.mp hq
+          have hps : p.seg = .par n := by
+            have := hnm _ hp _ hmem0
+            have hkk : p.seg.key = p0.seg.key := by rw [hpk, hp0]; rfl
+            simp only [namesAgree, hkk, if_true, Bool.and_eq_true, decide_eq_true_eq] at this
+            rw [this.1, hp0]
+          have hpu : p = ⟨u.host, .par n⟩ := by
+            have hh := hal.head hp (.inl (hk p hpk))
+            cases p; simp_all
+          refine ⟨p :: q, hp, ?_, ?_, ?_⟩
+          · simp [matchesLax, matchesG, hps, segAccepts, hu]; exact hm
+          · rw [hnorm, hpu]; simp
+          · rw [hpar]; simp [bindParams, hps]
+        · -- parametric child on the other side of the host/path boundary: excluded by `Aligned`
+          rename_i hhost
+          obtain ⟨p0, rest0, v0, hmem0, hp0, hh0⟩ := parChild?_some hpc
+          have := hal.head hmem0 (.inl (.inr (by simp [hp0, Seg.isPar])))
+          rw [hh0] at this
+          exact absurd this hhost
+      · -- stuck: only a wildcard child of THIS node can answer
+        rename_i hpc
+        rw [hpc] at h
+        simp only at h
+        obtain ⟨wv, hfw, hst⟩ := stuck_match h
+        rw [hst]
+        cases hw : wildChild? res with
+        | none => rw [hw] at hfw; simp at hfw
+        | some wv' =>
+          rw [hw] at hfw; simp at hfw; subst hfw
+          obtain ⟨w, wrest, hwm, hws⟩ := wildChild?_some hw
+          have := wildLast_wild_head (hwl _ hwm) hws
+          subst this
+          have hwh := hal.head hwm (.inr hws)
+          refine ⟨[w], hwm, by simp [matchesLax, matchesG, hws], ?_, by simp [bindParams, hws]⟩
+          cases w; simp_all
+
+
+theorem setParam_mem {k v n x : String} {ps : List (String × String)} (h : (k, v) ∈ setParam n x ps) :
+    (k = n ∧ v = x) ∨ (k, v) ∈ ps := by
+  induction ps with
+  | nil => simp [setParam] at h; exact .inl h
+  | cons kv rest ih =>
+    obtain ⟨k', v'⟩ := kv
+    unfold setParam at h
+    by_cases hk : k' = n
+    · simp [hk] at h
+      rcases h with h | h
+      · exact .inl h
+      · exact .inr (List.mem_cons_of_mem _ h)
+    · simp [hk] at h
+      rcases h with h | h
+      · exact .inr (by simp [h])
+      · rcases ih h with h | h
+        · exact .inl h
+        · exact .inr (List.mem_cons_of_mem _ h)
+
+/-- Every binding produced along `q` is `{k}` in `q` at a position where the URL has segment `v`. -/
+theorem bindParams_mem (q : Pattern) : ∀ (us : Url) (ps : List (String × String)) (k v : String),
+    (k, v) ∈ bindParams ps q us →
+    (k, v) ∈ ps ∨ ∃ pu ∈ q.zip us, pu.1.seg = .par k ∧ pu.2.seg.text = v := by
+  induction q with
+  | nil => intro us ps k v h; simp [bindParams] at h; exact .inl h
+  | cons p q ih =>
+    intro us ps k v h
+    cases us with
+    | nil => simp [bindParams] at h; exact .inl h
+    | cons u us =>
+      have lift : (∃ pu ∈ q.zip us, pu.1.seg = .par k ∧ pu.2.seg.text = v) →
+          ∃ pu ∈ (p :: q).zip (u :: us), pu.1.seg = .par k ∧ pu.2.seg.text = v := by
+        rintro ⟨pu, hpu, h1⟩
+        exact ⟨pu, by simp [hpu], h1⟩
+      cases hs : p.seg with
+      | par n =>
+        simp only [bindParams, hs] at h
+        rcases ih us _ k v h with h | h
+        · split at h
+          · exact .inl h
+          · rcases setParam_mem h with ⟨rfl, rfl⟩ | h
+            · exact .inr ⟨(p, u), by simp, hs, rfl⟩
+            · exact .inl h
+        · exact .inr (lift h)
+      | lit s =>
+        simp only [bindParams, hs] at h
+        rcases ih us _ k v h with h | h
+        · exact .inl h
+        · exact .inr (lift h)
+      | wild =>
+        simp only [bindParams, hs] at h
+        rcases ih us _ k v h with h | h
+        · exact .inl h
+        · exact .inr (lift h)
+
+/-! ### parameter names are consistent in every reachable trie -/
+
+theorem key_eq_par {s : Seg} (h : s.key = Key.par) : ∃ n, s = .par n := by
+  cases s <;> simp [Seg.key] at h ⊢
+
+theorem key_eq_wild {s : Seg} (h : s.key = Key.wild) : s = .wild := by
+  cases s <;> simp [Seg.key] at h ⊢
+
+theorem key_eq_lit {s : Seg} {x : String} (h : s.key = Key.lit x) : s = .lit x := by
+  cases s <;> simp [Seg.key] at h ⊢
+  exact h
+
+theorem namesAgree_refl (p : Pattern) : namesAgree p p = true := by
+  induction p with
+  | nil => rfl
+  | cons a p ih => simp [namesAgree, ih]
+
+theorem namesAgree_symm (p : Pattern) : ∀ q, namesAgree p q = true → namesAgree q p = true := by
+  induction p with
+  | nil => intro q _; cases q <;> rfl
+  | cons a p ih =>
+    intro q h
+    cases q with
+    | nil => rfl
+    | cons b q =>
+      unfold namesAgree at h ⊢
+      by_cases hk : a.seg.key = b.seg.key
+      · simp only [hk, if_true, Bool.and_eq_true, decide_eq_true_eq] at h ⊢
+        exact ⟨h.1.symm, ih q h.2⟩
+      · have : ¬ b.seg.key = a.seg.key := fun h' => hk h'.symm
+        simp [this]
+
+/-- All parameter heads of a names-consistent residual list carry the name of the first one. -/
+theorem NamesOK.par_name {res : Res V} (h : NamesOK res) {n : String} {b : Bool}
+    (hpc : parChild? res = some (n, b)) {q : Part} {qs : List Part} {v : Option V}
+    (hmem : (q :: qs, v) ∈ res) (hk : q.seg.key = Key.par) : q.seg = .par n := by
+  obtain ⟨p0, rest0, v0, hmem0, hp0, _⟩ := parChild?_some hpc
+  have := h _ hmem _ hmem0
+  have hkk : q.seg.key = p0.seg.key := by rw [hk, hp0]; rfl
+  simp only [namesAgree, hkk, if_true, Bool.and_eq_true, decide_eq_true_eq] at this
+  rw [this.1, hp0]
+
+theorem insGo_namesAgree (d : Bool) (ps : List Part) : ∀ (res : Res V) (eff : List Part),
+    NamesOK res → insGo d res ps = .ok eff → ∀ e ∈ res, namesAgree eff e.1 = true := by
+  induction ps with
+  | nil => intro res eff _ h e _; simp [insGo] at h; subst h; cases e.1 <;> rfl
+  | cons p ps ih =>
+    intro res eff hnm h ⟨qs, v⟩ hmem
+    -- common tail argument
+    have tail : ∀ (k : Key) (hd : Part) (eff' : List Part), hd.seg.key = k →
+        insGo d (step k res) ps = .ok eff' →
+        (∀ q qs', qs = q :: qs' → q.seg.key = k → hd.seg = q.seg) →
+        namesAgree (hd :: eff') qs = true := by
+      intro k hd eff' hhd hrec hseg
+      cases qs with
+      | nil => rfl
+      | cons q qs' =>
+        unfold namesAgree
+        by_cases hk : hd.seg.key = q.seg.key
+        · simp only [hk, if_true, Bool.and_eq_true, decide_eq_true_eq]
+          have hqk : q.seg.key = k := by rw [← hk, hhd]
+          refine ⟨hseg q qs' rfl hqk, ?_⟩
+          exact ih (step k res) eff' (hnm.step k) hrec (qs', v) (mem_step.mpr ⟨q, hmem, hqk⟩)
+        · simp [hk]
+    unfold insGo at h
+    cases hs : p.seg with
+    | wild =>
+      simp [hs] at h; subst h
+      cases qs with
+      | nil => rfl
+      | cons q qs' =>
+        unfold namesAgree
+        by_cases hk : p.seg.key = q.seg.key
+        · have : q.seg = .wild := key_eq_wild (by rw [← hk, hs]; rfl)
+          simp [hs, this, namesAgree]
+        · simp [hk]
+    | par n =>
+      simp only [hs] at h
+      split at h
+      · rename_i n' b hpc
+        split at h
+        · simp at h
+        · rename_i hnn
+          have hnn' : n = n' := by simpa using hnn
+          obtain ⟨a, ha, hf⟩ := except_map_ok h
+          subst hf
+          apply tail Key.par p a (by rw [hs]; rfl) ha
+          intro q qs' hq hqk
+          subst hq
+          rw [hs, hnm.par_name hpc hmem hqk, hnn']
+      · rename_i hpc
+        obtain ⟨a, ha, hf⟩ := except_map_ok h
+        subst hf
+        apply tail Key.par p a (by rw [hs]; rfl) ha
+        intro q qs' hq hqk
+        subst hq
+        have := parChild?_none hpc hmem
+        obtain ⟨m, hm⟩ := key_eq_par hqk
+        simp [hm, Seg.isPar] at this
+    | lit s =>
+      simp only [hs] at h
+      have litcase : ∀ a, insGo d (step (Key.lit s) res) ps = .ok a → namesAgree (p :: a) qs = true := by
+        intro a ha
+        apply tail (Key.lit s) p a (by rw [hs]; rfl) ha
+        intro q qs' _ hqk
+        rw [hs, key_eq_lit hqk]
+      split at h
+      · obtain ⟨a, ha, hf⟩ := except_map_ok h
+        subst hf; exact litcase a ha
+      · split at h
+        · rename_i n' b hpc
+          obtain ⟨a, ha, hf⟩ := except_map_ok h
+          subst hf
+          have hpc' : parChild? res = some (n', b) := by
+            cases d <;> simp_all
+          apply tail Key.par ⟨p.host, .par n'⟩ a rfl ha
+          intro q qs' hq hqk
+          subst hq
+          rw [hnm.par_name hpc' hmem hqk]
+        · obtain ⟨a, ha, hf⟩ := except_map_ok h
+          subst hf; exact litcase a ha
+
+theorem insertParts_namesOK {t t' : Tree V} {ps : List Part} {v : V} {d : Bool}
+    (hnm : NamesOK t) (h : insertParts t ps v d = .ok t') : NamesOK t' := by
+  obtain ⟨_, eff, he, rfl⟩ := insertParts_ok h
+  have hnew := insGo_namesAgree d ps t eff hnm he
+  intro e1 h1 e2 h2
+  rcases List.mem_append.mp h1 with h1 | h1 <;> rcases List.mem_append.mp h2 with h2 | h2
+  · exact hnm e1 h1 e2 h2
+  · simp at h2; subst h2; exact namesAgree_symm _ _ (hnew e1 h1)
+  · simp at h1; subst h1; exact hnew e2 h2
+  · simp at h1 h2; subst h1; subst h2; exact namesAgree_refl _
+
+
+theorem stuck_value_isMatch {fw : Option (Option V)} {params path u} {v : V}
+    (h : (stuck fw params path u).value = some v) : (stuck fw params path u).isMatch = true := by
+  unfold stuck at h ⊢
+  split
+  · rename_i hp; simp [hp, LookupResult.none] at h
+  · rename_i hp
+    cases fw with
+    | none => simp [hp, LookupResult.none] at h
+    | some wv => rfl
+
+theorem lookGo_value_isMatch (us : List Part) : ∀ (res : Res V) (fw : Option (Option V))
+    (params : List (String × String)) (path : List Part) (v : V),
+    (lookGo res fw params path us).value = some v → (lookGo res fw params path us).isMatch = true := by
+  induction us with
+  | nil =>
+    intro res fw params path v h
+    unfold lookGo at h ⊢
+    split
+    · rfl
+    · rename_i hnv
+      rw [hnv] at h; simp only at h
+      split
+      · rfl
+      · rename_i hw
+        rw [hw] at h; simp only at h
+        cases fw with
+        | some wv => rfl
+        | none => simp [LookupResult.none] at h
+  | cons u us ih =>
+    intro res fw params path v h
+    unfold lookGo at h ⊢
+    simp only at h ⊢
+    split
+    · rename_i s hvc
+      rw [hvc] at h
+      exact ih _ _ _ _ v h
+    · rename_i hvc
+      rw [hvc] at h; simp only at h
+      split
+      · rename_i n hh hpc
+        rw [hpc] at h; simp only at h
+        split
+        · rename_i hhost; rw [if_pos hhost] at h; exact ih _ _ _ _ v h
+        · rename_i hhost; rw [if_neg hhost] at h; exact stuck_value_isMatch h
+      · rename_i hpc
+        rw [hpc] at h; simp only at h
+        exact stuck_value_isMatch h
+
+theorem flagsOK_trunc (q : Pattern) : ∀ (us : Url), flagsOK (trunc q) us = flagsOK q us := by
+  induction q with
+  | nil => intro us; rfl
+  | cons p q ih =>
+    intro us
+    unfold trunc
+    by_cases hw : p.seg = .wild
+    · cases us <;> simp [hw, flagsOK]
+    · cases us with
+      | nil => simp [hw, flagsOK]
+      | cons u us =>
+        cases hs : p.seg with
+        | wild => exact absurd hs hw
+        | lit s => simp [hs, flagsOK, ih]
+        | par n => simp [hs, flagsOK, ih]
+
+
+/-! ### most specific, as far as a non-backtracking walk goes -/
+
+theorem rank_lit (s : String) : Seg.rank (.lit s) = 2 := rfl
+theorem rank_par (s : String) : Seg.rank (.par s) = 1 := rfl
+theorem rank_wild : Seg.rank .wild = 0 := rfl
+
+/-- lifting the "at least as specific / passed over" alternative through a common head edge -/
+theorem spec_lift {a p : Part} {rest q' : Pattern} (hk : a.seg.key = p.seg.key)
+    (h : specLE rest q' = true ∨ passedOver q' rest = true) :
+    specLE (a :: rest) (p :: q') = true ∨ passedOver (p :: q') (a :: rest) = true := by
+  have hr : Seg.rank a.seg = Seg.rank p.seg := by
+    cases ha : a.seg <;> cases hp : p.seg <;> simp [ha, hp, Seg.key] at hk <;> rfl
+  rcases h with h | h
+  · left; simp [specLE, hr, h]
+  · right
+    cases q' with
+    | nil => simp [passedOver] at h
+    | cons x q'' => simp [passedOver, hk, h]
+
+theorem matchesLax_cons_inv {a : Part} {rest : Pattern} {u : Part} {us : Url}
+    (h : matchesLax (a :: rest) (u :: us) = true) :
+    (a.seg = .wild ∧ rest = []) ∨ (a.seg ≠ .wild ∧ segAccepts a.seg u.seg = true ∧ matchesLax rest us = true) := by
+  cases hs : a.seg with
+  | wild => left; simp [matchesLax, matchesG, hs] at h; exact ⟨rfl, by simpa using h⟩
+  | lit s => right; simp [matchesLax, matchesG, hs] at h; simp [matchesLax, h]
+  | par n => right; simp [matchesLax, matchesG, hs] at h; simp [matchesLax, h]
+
+/-- What the greedy, non-backtracking walk guarantees about the selected entry. -/
+theorem lookGo_most_specific (us : List Part) :
+    ∀ (res : Res V) (fw : Option (Option V)) (params : List (String × String)) (path : List Part),
+    WildLast res → urlNonEmpty us = true → Aligned res us →
+    (lookGo res fw params path us).isMatch = true →
+    (∃ q, (q, (lookGo res fw params path us).value) ∈ res ∧ matchesLax q us = true ∧
+      ∀ e ∈ res, e.2 ≠ none → matchesLax e.1 us = true →
+        specLE e.1 q = true ∨ passedOver q e.1 = true) ∨
+    fw = some (lookGo res fw params path us).value := by
+  induction us with
+  | nil =>
+    intro res fw params path hwl _ _ h
+    unfold lookGo at h ⊢
+    split
+    · rename_i v hv
+      left
+      refine ⟨[], nodeValue_some hv, by simp [matchesLax, matchesG], ?_⟩
+      intro ⟨q, ov⟩ _ _ hm
+      cases q with
+      | nil => left; rfl
+      | cons a rest => left; rfl
+    · rename_i hnv
+      split
+      · rename_i wv hw
+        left
+        obtain ⟨w, wrest, hwm, hws⟩ := wildChild?_some hw
+        have := wildLast_wild_head (hwl _ hwm) hws
+        subst this
+        refine ⟨[w], hwm, by simp [matchesLax, matchesG, hws], ?_⟩
+        intro ⟨q, ov⟩ hmem hov hm
+        cases q with
+        | nil => exact absurd (nodeValue_none hnv hmem) hov
+        | cons a rest =>
+          have hm' : matchesLax (a :: rest) [] = true := hm
+          cases has : a.seg with
+          | wild =>
+            have := wildLast_wild_head (hwl _ hmem) has
+            subst this
+            left; simp [specLE, has, hws]
+          | lit s => simp [matchesLax, matchesG, has] at hm'
+          | par n => simp [matchesLax, matchesG, has] at hm'
+      · rename_i hw
+        rw [hnv, hw] at h
+        simp only at h
+        cases fw with
+        | some wv => right; rfl
+        | none => simp [LookupResult.none] at h
+  | cons u us ih =>
+    intro res fw params path hwl hne hal h
+    obtain ⟨hu, hne'⟩ := urlNonEmpty_cons hne
+    -- entries with a literal head equal to the URL part force the constant branch
+    have hconst : ∀ (a : Part) (rest : List Part) (v : Option V) (s : String),
+        (a :: rest, v) ∈ res → a.seg = .lit s → u.seg = .lit s → constFlag? res s = some u.host := by
+      intro a rest v s hmem has hus
+      cases hc : constFlag? res s with
+      | none => exact absurd has (constFlag?_none hc hmem)
+      | some f =>
+        obtain ⟨p0, r0, v0, hm0, hp0, hf0⟩ := constFlag?_some hc
+        have := hal.head hm0 (.inl (.inl ⟨s, hp0, hus⟩))
+        rw [← hf0, this]
+    -- the answer is this node's wildcard child
+    have viaWild : ∀ (wv : Option V), wildChild? res = some wv →
+        (∀ e ∈ res, e.2 ≠ none → matchesLax e.1 (u :: us) = true →
+          ∀ a rest, e.1 = a :: rest → a.seg ≠ .wild → True) →
+        ∃ q, (q, wv) ∈ res ∧ matchesLax q (u :: us) = true ∧
+          ∀ e ∈ res, e.2 ≠ none → matchesLax e.1 (u :: us) = true →
+            specLE e.1 q = true ∨ passedOver q e.1 = true := by
+      intro wv hw _
+      obtain ⟨w, wrest, hwm, hws⟩ := wildChild?_some hw
+      have := wildLast_wild_head (hwl _ hwm) hws
+      subst this
+      refine ⟨[w], hwm, by simp [matchesLax, matchesG, hws], ?_⟩
+      intro ⟨q, ov⟩ hmem _ hm
+      cases q with
+      | nil => simp [matchesLax, matchesG] at hm
+      | cons a rest =>
+        by_cases has : a.seg = .wild
+        · have := wildLast_wild_head (hwl _ hmem) has
+          subst this
+          left; simp [specLE, has, hws]
+        · right; simp [passedOver, hws, has]
+    -- fallback bookkeeping shared by all branches
+    have hfw : ∀ (val : Option V),
+        (match wildChild? res with | some wv => some wv | none => fw) = some val →
+        (∃ q, (q, val) ∈ res ∧ matchesLax q (u :: us) = true ∧
+          ∀ e ∈ res, e.2 ≠ none → matchesLax e.1 (u :: us) = true →
+            specLE e.1 q = true ∨ passedOver q e.1 = true) ∨ fw = some val := by
+      intro val hval
+      cases hw : wildChild? res with
+      | none => rw [hw] at hval; exact .inr hval
+      | some wv =>
+        rw [hw] at hval
+        simp only [Option.some.injEq] at hval
+        subst hval
+        exact .inl (viaWild wv hw (fun _ _ _ _ _ _ _ _ => trivial))
+    unfold lookGo at h ⊢
+    simp only at h ⊢
+    split
+    · -- constant child
+      rename_i s hvc
+      rw [hvc] at h
+      simp only at h
+      have hus : u.seg = .lit s ∧ constFlag? res s = some u.host := by
+        cases hs : u.seg with
+        | lit s' =>
+          rw [hs] at hvc; simp at hvc
+          obtain ⟨h1, h2⟩ := hvc
+          subst h2; exact ⟨rfl, h1⟩
+        | par n => rw [hs] at hvc; simp at hvc
+        | wild => rw [hs] at hvc; simp at hvc
+      have hk : ∀ p : Part, p.seg.key = Key.lit s → trieStep p u := by
+        intro p hp
+        exact .inl ⟨s, key_eq_lit hp, hus.1⟩
+      rcases ih _ _ params (path ++ [u]) (hwl.step _) hne' (hal.step hk) h with ⟨q', hq', hm', hall⟩ | hr
+      · left
+        obtain ⟨p, hp, hpk⟩ := mem_step.mp hq'
+        have hps : p.seg = .lit s := key_eq_lit hpk
+        refine ⟨p :: q', hp, by simp [matchesLax, matchesG, hps, segAccepts, hus.1]; exact hm', ?_⟩
+        intro ⟨q, ov⟩ hmem hov hm
+        cases q with
+        | nil => simp [matchesLax, matchesG] at hm
+        | cons a rest =>
+          rcases matchesLax_cons_inv hm with ⟨haw, _⟩ | ⟨_, hacc, hmr⟩
+          · left; simp [specLE, haw, hps, Seg.rank]
+          · cases has : a.seg with
+            | wild => left; simp [specLE, has, hps, Seg.rank]
+            | par n => left; simp [specLE, has, hps, Seg.rank]
+            | lit s' =>
+              rw [has, hus.1] at hacc
+              simp [segAccepts] at hacc
+              subst hacc
+              have hak : a.seg.key = Key.lit s := by rw [has]; rfl
+              have := hall (rest, ov) (mem_step.mpr ⟨a, hmem, hak⟩) hov hmr
+              exact spec_lift (by rw [hak, hpk]) this
+      · exact hfw _ hr
+    · rename_i hvc
+      rw [hvc] at h
+      simp only at h
+      -- no entry has a literal head equal to the URL part
+      have hnolit : ∀ (a : Part) (rest : List Part) (v : Option V) (s : String),
+          (a :: rest, v) ∈ res → a.seg = .lit s → u.seg ≠ .lit s := by
+        intro a rest v s hmem has hus
+        have := hconst a rest v s hmem has hus
+        rw [hus] at hvc
+        simp [this] at hvc
+      split
+      · rename_i n hh hpc
+        rw [hpc] at h
+        simp only at h
+        obtain ⟨p0, rest0, v0, hmem0, hp0, hh0⟩ := parChild?_some hpc
+        have hhost : hh = u.host := by
+          have := hal.head hmem0 (.inl (.inr (by simp [hp0, Seg.isPar])))
+          rw [← hh0, this]
+        rw [if_pos hhost] at h ⊢
+        have hk : ∀ p : Part, p.seg.key = Key.par → trieStep p u := by
+          intro p hp
+          obtain ⟨n', hn'⟩ := key_eq_par hp
+          exact .inr (by simp [hn', Seg.isPar])
+        rcases ih _ _ _ (path ++ [⟨u.host, .par n⟩]) (hwl.step _) hne' (hal.step hk) h with ⟨q', hq', hm', hall⟩ | hr
+        · left
+          obtain ⟨p, hp, hpk⟩ := mem_step.mp hq'
+          obtain ⟨n', hps⟩ := key_eq_par hpk
+          refine ⟨p :: q', hp, by simp [matchesLax, matchesG, hps, segAccepts, hu]; exact hm', ?_⟩
+          intro ⟨q, ov⟩ hmem hov hm
+          cases q with
+          | nil => simp [matchesLax, matchesG] at hm
+          | cons a rest =>
+            rcases matchesLax_cons_inv hm with ⟨haw, _⟩ | ⟨_, hacc, hmr⟩
+            · left; simp [specLE, haw, hps, Seg.rank]
+            · cases has : a.seg with
+              | wild => left; simp [specLE, has, hps, Seg.rank]
+              | lit s' =>
+                rw [has] at hacc
+                simp [segAccepts] at hacc
+                exact absurd hacc (hnolit a rest ov s' hmem has)
+              | par m =>
+                have hak : a.seg.key = Key.par := by rw [has]; rfl
+                have := hall (rest, ov) (mem_step.mpr ⟨a, hmem, hak⟩) hov hmr
+                exact spec_lift (by rw [hak, hpk]) this
+        · exact hfw _ hr
+      · -- stuck
+        rename_i hpc
+        rw [hpc] at h
+        simp only at h
+        obtain ⟨wv, hfw', hst⟩ := stuck_match h
+        rw [hst]
+        exact hfw wv hfw'
+
+
+theorem wildLast_of_matchesLax (p : Pattern) : ∀ (us : Url), matchesLax p us = true → wildLast p = true := by
+  induction p with
+  | nil => intro _ _; rfl
+  | cons a p ih =>
+    intro us h
+    cases hs : a.seg with
+    | wild => simp [matchesLax, matchesG, hs] at h; simp [wildLast, hs, h.1]
+    | lit s =>
+      cases us with
+      | nil => simp [matchesLax, matchesG, hs] at h
+      | cons u us => simp [matchesLax, matchesG, hs] at h; simp [wildLast, hs]; exact ih us h.2
+    | par n =>
+      cases us with
+      | nil => simp [matchesLax, matchesG, hs] at h
+      | cons u us => simp [matchesLax, matchesG, hs] at h; simp [wildLast, hs]; exact ih us h.2
+
+/-- `Lookup`, most specific: the selected entry (laxly) matches, and every valued entry that matches is
+    at most as specific, or was passed over by the fallback to the selected `*`. -/
+theorem lookupParts_most_specific (t : Tree V) (us : List Part)
+    (hwl : WildLast t) (hne : urlNonEmpty us = true) (hal : Aligned t us)
+    (h : (lookupParts t us).isMatch = true) :
+    ∃ q, (q, (lookupParts t us).value) ∈ t ∧ matchesLax q us = true ∧
+      ∀ e ∈ t, e.2 ≠ none → matchesLax e.1 us = true →
+        specLE e.1 q = true ∨ passedOver q e.1 = true := by
+  rcases lookGo_most_specific us t none [] [] hwl hne hal h with h | h
+  · exact h
+  · simp at h
+
+/-! ### order independence of the lookup -/
+
+/-- Two patterns carry EQUAL parts (name and host flag) along the trie path they share. -/
+def partsAgree : Pattern → Pattern → Bool
+  | p :: ps, q :: qs => if p.seg.key = q.seg.key then decide (p = q) && partsAgree ps qs else true
+  | _, _ => true
+
+def PartsOK (res : Res V) : Prop := ∀ e1 ∈ res, ∀ e2 ∈ res, partsAgree e1.1 e2.1 = true
+
+/-- Entries with the same (residual) pattern carry the same value. -/
+def RCoh (res : Res V) : Prop := ∀ e1 ∈ res, ∀ e2 ∈ res, e1.1 = e2.1 → e1.2 = e2.2
+
+theorem PartsOK.head_eq {res : Res V} (h : PartsOK res) {p1 p2 : Part} {r1 r2 : List Part} {v1 v2 : Option V}
+    (h1 : (p1 :: r1, v1) ∈ res) (h2 : (p2 :: r2, v2) ∈ res) (hk : p1.seg.key = p2.seg.key) : p1 = p2 := by
+  have := h _ h1 _ h2
+  simp only [partsAgree, hk, if_true, Bool.and_eq_true, decide_eq_true_eq] at this
+  exact this.1
+
+theorem PartsOK.step {res : Res V} (h : PartsOK res) (k : Key) : PartsOK (step k res) := by
+  intro ⟨r1, v1⟩ h1 ⟨r2, v2⟩ h2
+  obtain ⟨p1, hp1, hk1⟩ := mem_step.mp h1
+  obtain ⟨p2, hp2, hk2⟩ := mem_step.mp h2
+  have := h _ hp1 _ hp2
+  have hk : p1.seg.key = p2.seg.key := by rw [hk1, hk2]
+  simp only [partsAgree, hk, if_true, Bool.and_eq_true, decide_eq_true_eq] at this
+  exact this.2
+
+theorem RCoh.step {res : Res V} (h : RCoh res) (hp : PartsOK res) (k : Key) : RCoh (step k res) := by
+  intro ⟨r1, v1⟩ h1 ⟨r2, v2⟩ h2 heq
+  obtain ⟨p1, hp1, hk1⟩ := mem_step.mp h1
+  obtain ⟨p2, hp2, hk2⟩ := mem_step.mp h2
+  have hpp := hp.head_eq hp1 hp2 (by rw [hk1, hk2])
+  simp only at heq
+  subst heq; subst hpp
+  exact h (p1 :: r1, v1) hp1 (p1 :: r1, v2) hp2 rfl
+
+/-- Same patterns on both sides, values related by `R`. -/
+structure Sim (R : Option V → Option V' → Prop) (res : Res V) (res' : Res V') : Prop where
+  lr : ∀ q ov, (q, ov) ∈ res → ∃ ov', (q, ov') ∈ res' ∧ R ov ov'
+  rl : ∀ q ov', (q, ov') ∈ res' → ∃ ov, (q, ov) ∈ res ∧ R ov ov'
+
+theorem Sim.step {R : Option V → Option V' → Prop} {res : Res V} {res' : Res V'} (h : Sim R res res')
+    (k : Key) : Sim R (step k res) (step k res') := by
+  constructor
+  · intro q ov hm
+    obtain ⟨p, hp, hk⟩ := mem_step.mp hm
+    obtain ⟨ov', hov', hr⟩ := h.lr _ _ hp
+    exact ⟨ov', mem_step.mpr ⟨p, hov', hk⟩, hr⟩
+  · intro q ov' hm
+    obtain ⟨p, hp, hk⟩ := mem_step.mp hm
+    obtain ⟨ov, hov, hr⟩ := h.rl _ _ hp
+    exact ⟨ov, mem_step.mpr ⟨p, hov, hk⟩, hr⟩
+
+section queries
+variable {R : Option V → Option V' → Prop} {res : Res V} {res' : Res V'}
+
+theorem Sim.constFlag (h : Sim R res res') (hp : PartsOK res) (s : String) :
+    constFlag? res s = constFlag? res' s := by
+  cases hc : constFlag? res s with
+  | none =>
+    cases hc' : constFlag? res' s with
+    | none => rfl
+    | some f' =>
+      obtain ⟨p, rest, v, hm, hps, _⟩ := constFlag?_some hc'
+      obtain ⟨ov, hov, _⟩ := h.rl _ _ hm
+      exact absurd hps (constFlag?_none hc hov)
+  | some f =>
+    obtain ⟨p, rest, v, hm, hps, hf⟩ := constFlag?_some hc
+    cases hc' : constFlag? res' s with
+    | none =>
+      obtain ⟨ov', hov', _⟩ := h.lr _ _ hm
+      exact absurd hps (constFlag?_none hc' hov')
+    | some f' =>
+      obtain ⟨p', rest', v', hm', hps', hf'⟩ := constFlag?_some hc'
+      obtain ⟨ov, hov, _⟩ := h.rl _ _ hm'
+      have := hp.head_eq hm hov (by rw [hps, hps'])
+      rw [← hf, ← hf', this]
+
+theorem Sim.parChild (h : Sim R res res') (hp : PartsOK res) : parChild? res = parChild? res' := by
+  cases hc : parChild? res with
+  | none =>
+    cases hc' : parChild? res' with
+    | none => rfl
+    | some nf' =>
+      obtain ⟨n', f'⟩ := nf'
+      obtain ⟨p, rest, v, hm, hps, _⟩ := parChild?_some hc'
+      obtain ⟨ov, hov, _⟩ := h.rl _ _ hm
+      have := parChild?_none hc hov
+      simp [hps, Seg.isPar] at this
+  | some nf =>
+    obtain ⟨n, f⟩ := nf
+    obtain ⟨p, rest, v, hm, hps, hf⟩ := parChild?_some hc
+    cases hc' : parChild? res' with
+    | none =>
+      obtain ⟨ov', hov', _⟩ := h.lr _ _ hm
+      have := parChild?_none hc' hov'
+      simp [hps, Seg.isPar] at this
+    | some nf' =>
+      obtain ⟨n', f'⟩ := nf'
+      obtain ⟨p', rest', v', hm', hps', hf'⟩ := parChild?_some hc'
+      obtain ⟨ov, hov, _⟩ := h.rl _ _ hm'
+      have := hp.head_eq hm hov (by rw [hps, hps']; rfl)
+      subst this
+      rw [hps] at hps'
+      simp only [Seg.par.injEq] at hps'
+      rw [← hf, ← hf', hps']
+
+theorem Sim.wildChild (h : Sim R res res') (hp : PartsOK res) (hwl : WildLast res) (hc : RCoh res) :
+    (wildChild? res = none ∧ wildChild? res' = none) ∨
+    ∃ wv wv', wildChild? res = some wv ∧ wildChild? res' = some wv' ∧ R wv wv' := by
+  cases hw : wildChild? res with
+  | none =>
+    cases hw' : wildChild? res' with
+    | none => exact .inl ⟨rfl, rfl⟩
+    | some wv' =>
+      obtain ⟨p, rest, hm, hps⟩ := wildChild?_some hw'
+      obtain ⟨ov, hov, _⟩ := h.rl _ _ hm
+      exact absurd hps (wildChild?_none hw hov)
+  | some wv =>
+    obtain ⟨p, rest, hm, hps⟩ := wildChild?_some hw
+    cases hw' : wildChild? res' with
+    | none =>
+      obtain ⟨ov', hov', _⟩ := h.lr _ _ hm
+      exact absurd hps (wildChild?_none hw' hov')
+    | some wv' =>
+      right
+      obtain ⟨p', rest', hm', hps'⟩ := wildChild?_some hw'
+      obtain ⟨ov, hov, hr⟩ := h.rl _ _ hm'
+      have hpp := hp.head_eq hm hov (by rw [hps, hps'])
+      have h1 := wildLast_wild_head (hwl _ hm) hps
+      have h2 := wildLast_wild_head (hwl _ hov) hps'
+      subst h1; subst h2; subst hpp
+      have := hc _ hm _ hov rfl
+      simp only at this
+      subst this
+      exact ⟨_, _, rfl, rfl, hr⟩
+
+theorem nodeValue_eq_of_mem {res : Res V} (hc : RCoh res) {v : V} (hm : ([], some v) ∈ res) :
+    nodeValue res = some v := by
+  cases hn : nodeValue res with
+  | none => have := nodeValue_none hn hm; simp at this
+  | some v' =>
+    have := hc _ (nodeValue_some hn) _ hm rfl
+    simp only [Option.some.injEq] at this
+    rw [this]
+
+end queries
+
+/-- Relation between two lookup results. -/
+def ResultSim (R : Option V → Option V' → Prop) (r : LookupResult V) (r' : LookupResult V') : Prop :=
+  r.isMatch = r'.isMatch ∧ R r.value r'.value ∧ r.params = r'.params ∧ r.norm = r'.norm
+
+theorem stuck_sim {R : Option V → Option V' → Prop} (hR0 : R none none)
+    {fw : Option (Option V)} {fw' : Option (Option V')}
+    (hfw : (fw = none ∧ fw' = none) ∨ ∃ wv wv', fw = some wv ∧ fw' = some wv' ∧ R wv wv')
+    (params : List (String × String)) (path : List Part) (u : Part) :
+    ResultSim R (stuck fw params path u) (stuck fw' params path u) := by
+  unfold stuck
+  split
+  · exact ⟨rfl, hR0, rfl, rfl⟩
+  · rcases hfw with ⟨h1, h2⟩ | ⟨wv, wv', h1, h2, hr⟩
+    · subst h1; subst h2; exact ⟨rfl, hR0, rfl, rfl⟩
+    · subst h1; subst h2; exact ⟨rfl, hr, rfl, rfl⟩
+
+/-- The lookup depends on the inserted patterns only as a SET, provided entries on one trie path are equal
+    (`PartsOK`, `RCoh`) — values may differ between the two sides as long as they are `R`-related. -/
+theorem lookGo_sim {R : Option V → Option V' → Prop} (hR0 : R none none)
+    (hRsome : ∀ ov ov', R ov ov' → (ov = none ↔ ov' = none)) (us : List Part) :
+    ∀ (res : Res V) (res' : Res V') (fw : Option (Option V)) (fw' : Option (Option V'))
+      (params : List (String × String)) (path : List Part),
+    Sim R res res' → PartsOK res → WildLast res → RCoh res → RCoh res' →
+    ((fw = none ∧ fw' = none) ∨ ∃ wv wv', fw = some wv ∧ fw' = some wv' ∧ R wv wv') →
+    ResultSim R (lookGo res fw params path us) (lookGo res' fw' params path us) := by
+  induction us with
+  | nil =>
+    intro res res' fw fw' params path hs hp hwl hc hc' hfw
+    unfold lookGo
+    -- node values correspond
+    cases hn : nodeValue res with
+    | some v =>
+      have hm := nodeValue_some hn
+      obtain ⟨ov', hov', hr⟩ := hs.lr _ _ hm
+      cases ov' with
+      | none => have := (hRsome _ _ hr).mpr rfl; simp at this
+      | some v' =>
+        rw [nodeValue_eq_of_mem hc' hov']
+        exact ⟨rfl, hr, rfl, rfl⟩
+    | none =>
+      cases hn' : nodeValue res' with
+      | some v' =>
+        have hm' := nodeValue_some hn'
+        obtain ⟨ov, hov, hr⟩ := hs.rl _ _ hm'
+        cases ov with
+        | none => have := (hRsome _ _ hr).mp rfl; simp at this
+        | some v => rw [nodeValue_eq_of_mem hc hov] at hn; simp at hn
+      | none =>
+        simp only
+        rcases hs.wildChild hp hwl hc with ⟨h1, h2⟩ | ⟨wv, wv', h1, h2, hr⟩
+        · rw [h1, h2]
+          simp only
+          rcases hfw with ⟨h1, h2⟩ | ⟨wv, wv', h1, h2, hr⟩
+          · subst h1; subst h2; exact ⟨rfl, hR0, rfl, rfl⟩
+          · subst h1; subst h2; exact ⟨rfl, hr, rfl, rfl⟩
+        · rw [h1, h2]
+          exact ⟨rfl, hr, rfl, rfl⟩
+  | cons u us ih =>
+    intro res res' fw fw' params path hs hp hwl hc hc' hfw
+    unfold lookGo
+    simp only
+    have hfwn : ((match wildChild? res with | some wv => some wv | none => fw) = none ∧
+        (match wildChild? res' with | some wv => some wv | none => fw') = none) ∨
+        ∃ wv wv', (match wildChild? res with | some wv => some wv | none => fw) = some wv ∧
+          (match wildChild? res' with | some wv => some wv | none => fw') = some wv' ∧ R wv wv' := by
+      rcases hs.wildChild hp hwl hc with ⟨h1, h2⟩ | ⟨wv, wv', h1, h2, hr⟩
+      · rw [h1, h2]; exact hfw
+      · rw [h1, h2]; exact .inr ⟨wv, wv', rfl, rfl, hr⟩
+    have hp' : PartsOK res' := by
+      intro e1 h1 e2 h2
+      obtain ⟨_, ho1, _⟩ := hs.rl _ _ h1
+      obtain ⟨_, ho2, _⟩ := hs.rl _ _ h2
+      exact hp _ ho1 _ ho2
+    have hcf : ∀ s, constFlag? res s = constFlag? res' s := hs.constFlag hp
+    have hpar : ResultSim R
+        (match parChild? res with
+          | some (n, h) =>
+            if h = u.host then
+              lookGo (step Key.par res) (match wildChild? res with | some wv => some wv | none => fw)
+                (if u.seg.isPar = true then params else setParam n u.seg.text params)
+                (path ++ [{ host := u.host, seg := Seg.par n }]) us
+            else stuck (match wildChild? res with | some wv => some wv | none => fw) params path u
+          | none => stuck (match wildChild? res with | some wv => some wv | none => fw) params path u)
+        (match parChild? res' with
+          | some (n, h) =>
+            if h = u.host then
+              lookGo (step Key.par res') (match wildChild? res' with | some wv => some wv | none => fw')
+                (if u.seg.isPar = true then params else setParam n u.seg.text params)
+                (path ++ [{ host := u.host, seg := Seg.par n }]) us
+            else stuck (match wildChild? res' with | some wv => some wv | none => fw') params path u
+          | none => stuck (match wildChild? res' with | some wv => some wv | none => fw') params path u) := by
+      rw [← hs.parChild hp]
+      split
+      · rename_i n hh _
+        split
+        · exact ih _ _ _ _ _ _ (hs.step _) (hp.step _) (hwl.step _) (hc.step hp _) (hc'.step hp' _) hfwn
+        · exact stuck_sim hR0 hfwn params path u
+      · exact stuck_sim hR0 hfwn params path u
+    cases hseg : u.seg with
+    | lit s =>
+      simp only [hseg] at hpar ⊢
+      rw [← hcf s]
+      by_cases hcond : constFlag? res s = some u.host
+      · simp only [hcond, if_true]
+        exact ih _ _ _ _ params (path ++ [u]) (hs.step _) (hp.step _) (hwl.step _) (hc.step hp _)
+          (hc'.step hp' _) hfwn
+      · simp only [hcond, if_false]
+        exact hpar
+    | par n => simp only [hseg] at hpar ⊢; exact hpar
+    | wild => simp only [hseg] at hpar ⊢; exact hpar
+
+
+/-- Looking an inserted pattern up as if it were a URL finds that very pattern, provided no OTHER entry
+    (laxly) matches it and entries on one trie path are equal. -/
+theorem lookGo_self (rem : List Part) :
+    ∀ (res : Res V) (fw : Option (Option V)) (params : List (String × String)) (path : List Part) (j : V),
+    WildLast res → PartsOK res → RCoh res → (rem, some j) ∈ res →
+    (∀ e ∈ res, e.1 ≠ rem → matchesLax e.1 rem = false) →
+    (lookGo res fw params path rem).value = some j := by
+  induction rem with
+  | nil =>
+    intro res fw params path j _ _ hc hm _
+    unfold lookGo
+    rw [nodeValue_eq_of_mem hc hm]
+  | cons u rest ih =>
+    intro res fw params path j hwl hp hc hm hnc
+    -- stepping along the pattern's own first part keeps all hypotheses
+    have hstep : u.seg ≠ .wild → ∀ e ∈ step u.seg.key res, e.1 ≠ rest → matchesLax e.1 rest = false := by
+      intro hnw ⟨r', v'⟩ hm' hne
+      obtain ⟨p', hp', hk'⟩ := mem_step.mp hm'
+      have hpu : p' = u := hp.head_eq hp' hm hk'
+      subst hpu
+      have := hnc _ hp' (by simpa using hne)
+      cases hs : p'.seg with
+      | wild => exact absurd hs hnw
+      | lit s => simp [matchesLax, matchesG, hs, segAccepts] at this ⊢; exact this
+      | par n => simp [matchesLax, matchesG, hs, segAccepts] at this ⊢; exact this
+    have hmem' : (rest, some j) ∈ step u.seg.key res := mem_step.mpr ⟨u, hm, rfl⟩
+    unfold lookGo
+    simp only
+    cases hs : u.seg with
+    | lit s =>
+      have hcf : constFlag? res s = some u.host := by
+        cases hcf : constFlag? res s with
+        | none => exact absurd hs (constFlag?_none hcf hm)
+        | some f =>
+          obtain ⟨p0, r0, v0, hm0, hp0, hf0⟩ := constFlag?_some hcf
+          have := hp.head_eq hm0 hm (by rw [hp0, hs])
+          rw [← hf0, this]
+      simp only [hcf, if_true]
+      rw [hs] at hstep hmem'
+      exact ih _ _ _ _ j (hwl.step _) (hp.step _) (hc.step hp _) hmem' (hstep (by simp))
+    | par n =>
+      simp only
+      have hpc : parChild? res = some (n, u.host) := by
+        cases hpc : parChild? res with
+        | none => have := parChild?_none hpc hm; simp [hs, Seg.isPar] at this
+        | some nf =>
+          obtain ⟨n0, f0⟩ := nf
+          obtain ⟨p0, r0, v0, hm0, hp0, hf0⟩ := parChild?_some hpc
+          have := hp.head_eq hm0 hm (by rw [hp0, hs]; rfl)
+          subst this
+          rw [hs] at hp0
+          simp only [Seg.par.injEq] at hp0
+          rw [← hf0, hp0]
+      simp only [hpc, if_true]
+      rw [hs] at hstep hmem'
+      exact ih _ _ _ _ j (hwl.step _) (hp.step _) (hc.step hp _) hmem' (hstep (by simp))
+    | wild =>
+      simp only
+      have hrest : rest = [] := wildLast_wild_head (hwl _ hm) hs
+      subst hrest
+      have hw : wildChild? res = some (some j) := by
+        cases hw : wildChild? res with
+        | none => exact absurd hs (wildChild?_none hw hm)
+        | some wv =>
+          obtain ⟨p0, r0, hm0, hp0⟩ := wildChild?_some hw
+          have hpp := hp.head_eq hm0 hm (by rw [hp0, hs])
+          have hr0 := wildLast_wild_head (hwl _ hm0) hp0
+          subst hpp; subst hr0
+          have := hc _ hm0 _ hm rfl
+          simp only at this
+          rw [this]
+      simp only [hw]
+      have hst : (stuck (some (some j)) params path u).value = some j := by
+        simp [stuck, hs, Seg.isPar]
+      cases hpc : parChild? res with
+      | none => simp only; exact hst
+      | some nf =>
+        obtain ⟨n, h⟩ := nf
+        simp only
+        by_cases hh : h = u.host
+        · simp only [hh, if_true]
+          -- diverted into the parameter child with nothing left: that node answers nothing
+          unfold lookGo
+          have hnv : nodeValue (step Key.par res) = none := by
+            cases hnv : nodeValue (step Key.par res) with
+            | none => rfl
+            | some v =>
+              obtain ⟨p0, hm0, hk0⟩ := mem_step.mp (nodeValue_some hnv)
+              obtain ⟨m, hm'⟩ := key_eq_par hk0
+              have := hnc _ hm0 (by simp; intro h; rw [h, hs] at hm'; simp at hm')
+              simp [matchesLax, matchesG, hm', segAccepts, hs] at this
+          have hwc : wildChild? (step Key.par res) = none := by
+            cases hwc : wildChild? (step Key.par res) with
+            | none => rfl
+            | some wv =>
+              obtain ⟨w', r', hmw, hws⟩ := wildChild?_some hwc
+              have hr' := wildLast_wild_head ((hwl.step _) _ hmw) hws
+              subst hr'
+              obtain ⟨p0, hm0, hk0⟩ := mem_step.mp hmw
+              obtain ⟨m, hm'⟩ := key_eq_par hk0
+              have := hnc _ hm0 (by simp)
+              simp [matchesLax, matchesG, hm', segAccepts, hs, hws] at this
+          simp [hnv, hwc]
+        · simp only [hh, if_false]; exact hst
+
+
+/-- Host flags agree along the shared trie path. -/
+def hostsAgree : Pattern → Pattern → Bool
+  | p :: ps, q :: qs => if p.seg.key = q.seg.key then p.host == q.host && hostsAgree ps qs else true
+  | _, _ => true
+
+theorem partsAgree_of (p : Pattern) : ∀ q, namesAgree p q = true → hostsAgree p q = true → partsAgree p q = true := by
+  induction p with
+  | nil => intro q _ _; cases q <;> rfl
+  | cons a p ih =>
+    intro q hn hh
+    cases q with
+    | nil => rfl
+    | cons b q =>
+      unfold partsAgree
+      unfold namesAgree at hn
+      unfold hostsAgree at hh
+      by_cases hk : a.seg.key = b.seg.key
+      · simp only [hk, if_true, Bool.and_eq_true, decide_eq_true_eq, beq_iff_eq] at hn hh ⊢
+        refine ⟨?_, ih q hn.2 hh.2⟩
+        cases a; cases b; simp_all
+      · simp [hk]
+
+theorem hostsAgree_of_flagsOK (p : Pattern) : ∀ q, flagsOK p q = true → hostsAgree (trunc p) (trunc q) = true := by
+  induction p with
+  | nil => intro q _; simp [trunc, hostsAgree]
+  | cons a p ih =>
+    intro q h
+    cases q with
+    | nil => simp [trunc]; unfold trunc; split <;> simp [hostsAgree]
+    | cons b q =>
+      by_cases hk : a.seg.key = b.seg.key
+      · cases has : a.seg with
+        | wild =>
+          have hbs : b.seg = .wild := key_eq_wild (by rw [← hk, has]; rfl)
+          simp [flagsOK, has] at h
+          simp [trunc, has, hbs, hostsAgree, h]
+        | lit s =>
+          have hbs : b.seg = .lit s := key_eq_lit (by rw [← hk, has]; rfl)
+          simp [flagsOK, has, hbs] at h
+          simp [trunc, has, hbs, hostsAgree, h.1, ih q h.2]
+        | par n =>
+          obtain ⟨m, hbs⟩ := key_eq_par (show b.seg.key = Key.par by rw [← hk, has]; rfl)
+          simp [flagsOK, has] at h
+          simp [trunc, has, hbs, hostsAgree, Seg.key, h.1, ih q h.2]
+      · have : (trunc (a :: p)) = a :: (trunc (a :: p)).tail := by unfold trunc; split <;> simp
+        have hb : (trunc (b :: q)) = b :: (trunc (b :: q)).tail := by unfold trunc; split <;> simp
+        rw [this, hb]
+        simp [hostsAgree, hk]
+
+theorem matchesLax_trunc_self (p : Pattern) : matchesLax (trunc p) p = true := by
+  induction p with
+  | nil => simp [trunc, matchesLax, matchesG]
+  | cons a p ih =>
+    cases has : a.seg with
+    | wild => simp [trunc, has, matchesLax, matchesG]
+    | lit s => simp [trunc, has, matchesLax, matchesG, segAccepts]; exact ih
+    | par n => simp [trunc, has, matchesLax, matchesG, segAccepts]; exact ih
+
 
 end LunarVerif.UrlTree
